@@ -92,7 +92,8 @@ def run(ctx, rep):
         n_wide[name] = n_wide.get(name, 0) + 1
         labels = None
         if ncls:
-            cands = [ls for ls in label_sets if len(ls) == (2 if ncls == 2 else ctx.rng.choice([2, 3]))]
+            k_lab = 2 if ncls == 2 else ctx.rng.choice([2, 3])      # drawn once (it used to be re-drawn per candidate)
+            cands = [ls for ls in label_sets if len(ls) == k_lab]
             labels = ctx.rng.choice(cands)
         X, y = E.tiny_problem(ctx.rng, n=ctx.rng.randint(18, 30), d=d, labels=labels)
         y = np.array(y)
